@@ -52,7 +52,7 @@ def _element(ctx, st, idx, nref, nfeat, shared_titles, with_cit=True):
             # every GenBank record carries its own 'Direct Submission' entry: same title, no PubMed id, other authors
             title = "Direct Submission"
             authors = "shared lab" if mk.bool("e%d_ref%d_same_authors" % (idx, k)) else "submitter %d-%d" % (idx, k)
-        refs.append(make_ref(st, title, authors))
+        refs.append(make_ref(st, title, authors, span=ctx.P.get("refspan")))
     feats, spec = [], []
     for f in range(nfeat):
         if ctx.P.get("sympos", 0) == idx:
@@ -222,6 +222,12 @@ def obligations(tier, seed):
     for sh in (shapes[0], shapes[4]):
         obs.append(Ob("citations m=%d refs=%s, all records share one id" % (sh["m"], sh["nref"]), ob_citations,
                       dict(sh, sympos=0, ids="same"), samples=8, cost=8 * 4 ** sum(sh["nref"]) * 2 ** sum(sh["ncit"]), group="ids"))
+    # references that carry the span of their source record (as every parsed GenBank reference does), shorter and
+    # longer than the product
+    for span in tier_pick(tier, (300,), (5, 12, 300)):
+        obs.append(Ob("citations m=2 refs=[1, 1, 1], references spanning %d bases of their source" % span, ob_citations,
+                      dict(shapes[4], sympos=0, refspan=span), samples=8, cost=8 * 4 ** 3 * 2 ** 3, group="refspan",
+                      expect_witness=("shared-reference",)))
     for sh in shapes:
         for sympos in range(sh["m"] + 1):
             if sh["nfeat"][sympos] == 0:
